@@ -49,6 +49,13 @@ def histories(tier, rng):
     yield [('scu', 1), ('assoc',), ('scp', 1)]
     yield [('scu', 2), ('assoc',), ('scu', 1)]
     yield [('scp', 1), ('scu', 1), ('assoc',), ('scp', 2), ('assoc',), ('scu', 1)]
+    # an earlier association of the same entity in which the peer REFUSED some contexts: the entity's configuration
+    # is what it was
+    yield [('scu', 3), ('assoc', 'refuse-some')]
+    yield [('scu', 2), ('scp', 2), ('assoc', 'refuse-some'), ('scu', 1)]
+    # one call naming a class twice: still one configured class
+    yield [('scu', 3, 0, 'twice')]
+    yield [('scp', 2), ('scu', 2, 1, 'twice')]
     for n in (63, 64, 126, 127, 128):
         yield [('scu', n)]
     yield [('scu', 64), ('scu', 64)]
@@ -98,7 +105,10 @@ def run_case(hist, ts_list, reply, own_max, rng):
         if h[0] == 'assoc':
             # an association with everything configured so far, every context accepted; its outcome is not judged here
             ids0 = sorted(ae.context_def_list)
-            acc = N.pdu.AAssociateAcPDU.decode(N.ac_bytes('REMOTE-AE', 'LOCAL-AE', [{'id': i, 'res': 0, 'ts': str(ts_list[0])} for i in ids0 if i <= 255], 16384))
+            refuse = len(h) > 1 and h[1] == 'refuse-some'
+            acc = N.pdu.AAssociateAcPDU.decode(N.ac_bytes('REMOTE-AE', 'LOCAL-AE', [
+                ({'id': i, 'res': 3, 'ts': ''} if (refuse and n_ % 2 == 0) else {'id': i, 'res': 0, 'ts': str(ts_list[0])})
+                for n_, i in enumerate(ids0) if i <= 255], 16384))
             try:
                 N.bare_requester(ae, own_max, remote0, [acc])._request(ae.local_ae, remote0, users_pdu=[])
             except Exception:      # noqa
@@ -108,6 +118,8 @@ def run_case(hist, ts_list, reply, own_max, rng):
         shared = h[2] if len(h) > 2 else 0
         classes = prev[:shared] + uid_pool(n - shared, j)
         prev = classes
+        if len(h) > 3 and h[3] == 'twice':
+            classes = classes + [classes[0]]          # the list handed to add_scu / add_scp names its first class again
         rec = N.Recorder(classes)
         if kind == 'scu':
             ae.add_scu(rec)
